@@ -793,6 +793,29 @@ def gen_formatters() -> List[str]:
     return out
 
 
+def gen_cap_validators(t_ast: ast.Module, parser_errors: Set[str]) -> List[str]:
+    """Uint / Int.validate_post_freeze in _ast.py: `if not (<cond on self.cap>): raise X.from_token(...)`"""
+    out = []
+    for cls, coq in (("Uint", "uint_cap_check"), ("Int", "int_cap_check")):
+        fn = find_func(t_ast, "validate_post_freeze", cls)
+        body = strip_doc(fn)
+        if not (len(body) == 2 and isinstance(body[0], ast.If) and ast.unparse(body[0].test) == "self._is_missing"
+                and isinstance(body[0].body[0], ast.Return) and isinstance(body[1], ast.If)
+                and isinstance(body[1].test, ast.UnaryOp) and isinstance(body[1].test.op, ast.Not)
+                and len(body[1].body) == 1 and isinstance(body[1].body[0], ast.Raise) and not body[1].orelse):
+            raise Broken(f"translator(C09): _ast.{cls}.validate_post_freeze has an unrecognised shape",
+                         ast.unparse(fn)[:300])
+        exc = body[1].body[0].exc
+        name = exc.func.value.id if (isinstance(exc, ast.Call) and isinstance(exc.func, ast.Attribute)
+                                     and isinstance(exc.func.value, ast.Name)) else None
+        if name not in parser_errors:
+            raise Broken(f"translator(C09): _ast.{cls}.validate_post_freeze raises {name}")
+        cond = Tr(f"{cls}.validate_post_freeze", attr_map={"self.cap": "cap"}).b(body[1].test.operand, {})
+        out.append(f"(* _ast.py:{body[1].lineno}  {cls}.validate_post_freeze (runs when the token rule builds the type) *)\n"
+                   f"Definition {coq} (cap : Z) : outcome Z := if {cond} then Ok cap else ParserError {cstr(name)}.")
+    return out
+
+
 def interpreter_limit() -> int:
     try:
         p = subprocess.run([PY, "-c", "import sys; print(sys.get_int_max_str_digits())"], env=IMPL_ENV,
@@ -881,6 +904,8 @@ def gen_c09() -> Tuple[str, Dict[str, str]]:
     out.append(gen_conversion(t_lex, "t_HEX_LITERAL", "t.value", "lex_hex_literal", parser_errors))
     out.append(gen_conversion(t_lex, "t_UINT_TYPE", "cap", "lex_uint_cap", parser_errors))
     out.append(gen_conversion(t_lex, "t_INT_TYPE", "cap", "lex_int_cap", parser_errors))
+
+    out.extend(gen_cap_validators(t_ast, parser_errors))
 
     # ---- error hooks
     for hook, owner, tree in (("t_error", "Lexer", t_lex), ("p_error", "Parser", t_par)):
